@@ -247,6 +247,16 @@ def run(ctx):
             continue
         ctx.count((job['lib'], tuple(map(tuple, job['mapping']))), nontrivial=len(job['mapping']) > 1 or job['kind'] == 'unit')
         oracle(ctx, job, res, has[job['lib']], rngs[job['lib']])
+        va = res.get('vals_after_elements')
+        if isinstance(va, dict) and 'vals' in res and 'exc' not in va:
+            for p_ in job['props']:
+                for T_, a_, b_ in zip(job['Ts'], res['vals'][p_], va[p_]):
+                    same_ = (a_.get('exc') == b_.get('exc')) if ('exc' in a_ or 'exc' in b_) else \
+                        (a_.get('v') == b_.get('v') or (a_.get('v') is not None and b_.get('v') is not None and abs(a_['v'] - b_['v']) <= 1e-12 * (1 + abs(a_['v']))))
+                    if not same_:
+                        ctx.violate('asked-before:%s|%s' % (p_, job['lib'][-30:]), 'an estimate asked first for values relative to the elements then gives another %s' % p_,
+                                    dict(job, T=T_, prop=p_), a_, b_)
+                        break
         if job['kind'] != 'unit' or ctx.rng.random() < 0.1:
             libview = [(n, has[job['lib']].get(n, False)) for n, _ in job['mapping']]
             if len(misses) < ctx.n(300, 3000) and ('exc' not in res or res['exc'] == 'GroupMissingDataError'):
